@@ -23,6 +23,7 @@ fn main() {
             let out = std::fs::File::create(&args[5]).expect("create trace");
             let skip: Vec<u64> = std::env::var("VERIF_SKIP").unwrap_or_default().split(',').filter_map(|x| x.trim().parse().ok()).collect();
             let mut ctx = gen::Ctx {
+                capped: std::cell::Cell::new(false),
                 max_len: std::cell::Cell::new(usize::MAX),
                 skip,
                 allow_huge: std::cell::Cell::new(false),
@@ -47,7 +48,7 @@ fn main() {
             }
             gen::generate(&mut ctx, prop);
             ctx.out.borrow_mut().flush().unwrap();
-            println!("generated {} cases profile={}", ctx.n.get(), profile);
+            println!("generated {} cases profile={}{}", ctx.n.get(), profile, if ctx.capped.get() { " CAPPED" } else { "" });
         }
         Some("replay") => {
             let stdin = std::io::stdin();
